@@ -37,7 +37,12 @@ def scenarios(tier, seed):
             for i in range(n)] + \
         [{"kind": "point", "seed": seed * 1000 + 850, "nf": 2, "nfiles": 2, "layout": "shuffled", "n0": [16, 8, 8], "geo_lo": [-3., 1.5, 10.],
           "dx0": [0.5, 0.25, 0.125], "npoints": 8,      # a fine box lying across the face shared by two coarse boxes
-          "levels": [[[[0, 0, 0], [7, 7, 7]], [[8, 0, 0], [15, 7, 7]]], [[[8, 4, 4], [23, 11, 11]]]]}]
+          "levels": [[[[0, 0, 0], [7, 7, 7]], [[8, 0, 0], [15, 7, 7]]], [[[8, 4, 4], [23, 11, 11]]]]},
+         # boxes with the SAME index bounds at two levels (index ranges are per level), one field selection kept for all queries
+         {"kind": "point", "seed": seed * 1000 + 851, "nf": 1, "nfiles": 1, "layout": "monotone", "n0": [16, 16, 8], "geo_lo": [0.5, -1., 2.],
+          "dx0": [0.5, 0.25, 0.125], "npoints": 60,
+          "levels": [[[[0, 0, 0], [7, 7, 7]], [[8, 0, 0], [15, 7, 7]], [[0, 8, 0], [7, 15, 7]], [[8, 8, 0], [15, 15, 7]]],
+                     [[[0, 0, 0], [7, 7, 7]], [[8, 0, 0], [15, 7, 7]]]]}]
 
 
 def run_scenario(p, wd):
